@@ -192,7 +192,7 @@ pub fn find_n(re: &regress::Regex, mode: Mode, text: &str, start: usize, limit: 
             // the default executor goes through the public entry point (its start handling is part of
             // what is checked); callers only pass starts on char boundaries or >= len
             (Backend::Backtrack, false) => drain!(re.find_from(text, start)),
-            (Backend::Backtrack, true) => drain!(backends::find_ascii::<backends::BacktrackExecutor>(re, text, start)),
+            (Backend::Backtrack, true) => drain!(re.find_from_ascii(text, start)),
             #[cfg(feature = "pikevm")]
             (Backend::Pike, false) => drain!(backends::find::<backends::PikeVMExecutor>(re, text, start)),
             #[cfg(feature = "pikevm")]
